@@ -509,7 +509,9 @@ pub fn guard_holds(prop: &str, guard: &str, case: &Case, fail: &Fail, rejudge: &
         }
         // D2: the widening merge of `find_next_state` makes `{m,n}` accept counts no test case has
         "repetition_merge_widens" => {
-            case.cfg.has(BIT_REP) && fail.kind == Kind::Over && matches!(stage_flags(case), Some((_, _, true)))
+            // C08 compares the unanchored body with the anchored build: the widened side is then the reference
+            let kind_ok = fail.kind == Kind::Over || (prop == "C08" && fail.kind == Kind::Miss);
+            case.cfg.has(BIT_REP) && kind_ok && matches!(stage_flags(case), Some((_, _, true)))
         }
         // D8: without `$`, leftmost-first search stops at a shorter alternative that is a prefix
         "short_match_without_end_anchor" => {
